@@ -111,4 +111,12 @@ def obligations():
     big = Obligation("C04.feasible5.b", _ob(5), kind="bounded", tier="thorough", functions=fs, max_paths=4000000, timeout_ms=60000, time_budget_s=7200,
                      bound="profiles of 5 rows, 1..2 utilities per side")
     obs += split(big, hot_side=[True, False], rows=[5], utilities=[1, 2])
+    # the assignment works on the load profiles derived from the POCKET-FREE curve: its contracts (C07: envelope, breakpoints, split into
+    # monotone load profiles) are what FEASIBLE is stated against, and are discharged here as well so that a change to those functions is
+    # reported for this property too
+    from . import C07
+    for o in C07.obligations():
+        if o.tier == "quick" and (o.name.startswith("C07.np.") or o.name.startswith("C07.split")) and "sawtooth4" not in o.name and "sawtooth5" not in o.name:
+            obs.append(Obligation(o.name.replace("C07.", "C04.dep."), o.fn, kind=o.kind, functions=o.functions, bound=o.bound, max_paths=o.max_paths, params=o.params,
+                                  timeout_ms=o.timeout_ms, expect=o.expect, stubs=o.stubs, doc="(callee contract, shared with C07) " + (o.doc or "")))
     return obs
